@@ -25,9 +25,11 @@
 //! * `c01d` (oracle only — exploration): determinism differential on whole transactions.
 //!     tx <nonce> <lock|nolock> <op>,<op>,…
 //!   The transaction is executed on clones of one in-memory ledger state under
-//!   {16 diagnostic-flag combinations} × {fresh ScryptoVm, warm shared ScryptoVm} × {1 thread, 8
-//!   threads at once} × {this process, a second process (this binary re-spawned, which also runs the
-//!   kernel-trace variants because they print to stdout)}; the `scrypto_encode`d outcome, state
+//!   {diagnostic-flag combinations: the 8 without `enable_debug_information` in every case, 4 of the 8
+//!   with it per case (it makes execution ~100x slower), rotating so that 4 consecutive cases cover all
+//!   16} × {fresh ScryptoVm, warm shared ScryptoVm} × {1 thread, 8 threads at once} × {this process, a
+//!   second process (this binary re-spawned, which also runs the kernel-trace variants because they
+//!   print to stdout)} — 34 executions per case; the `scrypto_encode`d outcome, state
 //!   updates, application events and fee summary (plus logs, fee source/destination, state update
 //!   summary) must be byte-identical. Key on failure: `nondeterminism:<variant>:<piece>`.
 use harness::util::*;
@@ -760,11 +762,15 @@ impl Runner for DiffR {
         let mut results: Vec<(String, Vec<String>)> = vec![];
         {
             let env = self.env.as_ref().unwrap();
-            // this process: the 8 combinations without kernel trace (which prints to stdout)
-            for bits in (0..16u32).filter(|b| b & 1 == 0) {
+            // this process: combinations without kernel trace (which prints to stdout). The detailed cost
+            // breakdown (`enable_debug_information`) makes an execution ~100x slower, so only two of the
+            // eight combinations containing it run per case and process, rotating with the nonce: every
+            // 4 consecutive cases cover all 16 combinations.
+            let rot = (nonce % 4) * 2;
+            for bits in [0u32, 2, 4, 6, 8 + rot] {
                 let cfg = flags_config(bits, depth);
                 let db = env.db.clone();
-                if bits == 0 || bits == 14 {
+                if bits == 0 || bits == 6 {
                     let fresh = DefaultVmModules::default();
                     results.push((format!("p0-cold-f{}", bits), run_one(&db, &fresh, &cfg, &exe)));
                 }
@@ -778,7 +784,7 @@ impl Runner for DiffR {
                     .map(|i| {
                         let db = env.db.clone();
                         s.spawn(move || {
-                            let bits = (i * 2) & 14;
+                            let bits = [0u32, 2, 4, 6, 0, 2, 4, 8 + ((rot + 2) % 8)][i as usize];
                             let cfg = flags_config(bits, depth);
                             if i % 4 != 3 {
                                 (format!("p0-thread{}-warm-f{}", i, bits), run_one(&db, warm, &cfg, exe_ref))
@@ -809,7 +815,7 @@ impl Runner for DiffR {
         }
         let base = results[0].1.clone();
         let ans = format!("{} su={} ev={} fee={} variants={}", base[0], base[2], base[3], base[4], results.len());
-        if results.len() < 10 + 8 + 18 + 8 {
+        if results.len() < 7 + 8 + 11 + 8 {
             return Answer::fail(ans, "variants-missing", format!("only {} variants ran", results.len()));
         }
         for (name, d) in &results {
@@ -853,10 +859,11 @@ fn child_main() {
             if let (Ok(nonce), Some(lock)) = (n.parse::<u32>(), match *l { "lock" => Some(true), "nolock" => Some(false), _ => None }) {
                 if let Some(exe) = env.executable(nonce, lock, ops) {
                     let depth = trace_depth(nonce);
-                    for bits in 0..16u32 {
+                    let rot = (nonce % 4) * 2;
+                    for bits in [0u32, 1, 2, 3, 4, 5, 6, 7, 9 + rot] {
                         let cfg = flags_config(bits, depth);
                         let db = env.db.clone();
-                        if bits == 0 || bits == 15 {
+                        if bits == 0 || bits == 7 {
                             let fresh = DefaultVmModules::default();
                             out.push_str(&format!("cold-f{}={};", bits, run_one(&db, &fresh, &cfg, &exe).join("/")));
                         }
@@ -871,7 +878,7 @@ fn child_main() {
                                 let db = envr.db.clone();
                                 s.spawn(move || {
                                     // odd threads trace the kernel (stdout of this process is /dev/null)
-                                    let bits = (i * 2 + (i & 1)) & 15;
+                                    let bits = [1u32, 3, 5, 7, 0, 2, 4, 9 + ((rot + 2) % 8)][i as usize];
                                     let cfg = flags_config(bits, depth);
                                     format!("thread{}-f{}={};", i, bits, run_one(&db, warm_ref, &cfg, exe_ref).join("/"))
                                 })
@@ -987,7 +994,7 @@ fn main() {
         let env = Env::new();
         let warm = DefaultVmModules::default();
         let exe = env.executable(1, true, "free,kvins:0:k1:v1,mintnf:17").unwrap();
-        for (name, bits, cold) in [("warm-f0", 0u32, false), ("warm-f0", 0, false), ("cold-f0", 0, true), ("warm-f14", 14, false), ("warm-f1", 1, false), ("warm-f15", 15, false)] {
+        for (name, bits, cold) in [("warm-f0", 0u32, false), ("f2", 2, false), ("f4", 4, false), ("f8", 8, false), ("f8", 8, false), ("f12", 12, false), ("f6", 6, false)] {
             let t0 = std::time::Instant::now();
             let db = env.db.clone();
             let t1 = std::time::Instant::now();
